@@ -487,9 +487,24 @@ def impl(py):
     d1, o1 = build_inputs(py)
     d2, o2 = build_inputs(py)
     keep = json.dumps([[str(d.get("time")), d.get("width"), d.get("text")] for d in d1])
+    import zlib
     tls = TimelineSVG(d1, o1)
+    decoys = []
+    if zlib.crc32(json.dumps(py, sort_keys=True, default=str).encode()) % 2 == 0:
+        # half of the cases: other timelines (another direction, default engine options, one of
+        # them with engine options of its own) are CONSTRUCTED between this timeline's
+        # construction and its export and stay alive, as a program that builds a list of
+        # timelines and exports them in a loop does.  Timelines share nothing, so the picture of
+        # the observed one must not change (seed C08-e: a shared default `labella` dict).
+        other = {"up": "right", "down": "left", "left": "up", "right": "down"}[effective(py)["direction"]]
+        dd = [{"time": datetime.datetime(2001, 2, 3, 4), "width": 30, "text": "a"},
+              {"time": datetime.datetime(2001, 2, 9), "width": 40}]
+        decoys.append(TimelineSVG([dict(x) for x in dd], {"direction": other}))
+        decoys.append(TimelineTex([dict(x) for x in dd], {"direction": other, "labella": {"maxPos": 50, "nodeSpacing": 9}}))
     svg = tls.export()
     tlt = TimelineTex(d2, o2)
+    if decoys:
+        decoys.append(TimelineSVG([dict(x) for x in dd], {"direction": other}))
     tex = tlt.export()
     out = {"layout": _layout_of(tls), "layout_tex": _layout_of(tlt)}
     out["times"] = [to_number(d["time"]) for d in build_inputs(py)[0]]
@@ -1470,7 +1485,9 @@ def gen_case(rng, kind, n=None, direction=None, algorithm=None, min_spacing=None
     # partial options: drop some top-level keys (documented: any subset)
     if rng.random() < 0.2:
         for k in rng.sample(["initialWidth", "initialHeight", "margin", "layerGap", "labelPadding", "dotRadius",
-                             "showTicks", "showBorder"], rng.randrange(1, 5)):
+                             "showTicks", "showBorder", "labella"], rng.randrange(1, 5)):
+            if k == "labella" and force_layers:
+                continue          # the family needs its engine options
             del opts[k]
     colors = {}
     forms = colour_forms or ("c3", "c6", "l", "f")
